@@ -7,7 +7,7 @@ THEOREMS = [("FlatModel.Props.C03", t) for t in ("FC.C03.rep_default", "FC.C03.r
                                                   "FC.C03.rep_extend", "FC.C03.rep_fromIter", "FC.C03.iter_spec")]
 LEAN_TARGETS = ["FlatModel.Generated.Covered"]
 PROFILES = {"quick": ["checked", "wrapping"], "thorough": ["checked", "wrapping"], "search": ["checked"]}
-RULE = ("histories of copy / extend / from_iter / clear / clone / reserve over every catalogued region x every admissible index "
+RULE = ("histories of copy / extend / from_iter / clear / clone / clone_from (into a pre-filled stack) / reserve over every catalogued region x every admissible index "
         "container, observed through len, is_empty, get(i) for all i < len, get(len), get(len+1), get(usize::MAX), iteration with "
         "size hints and a cloned iterator; oracle = list of copied values; non-trivial when the stack holds >= 3 items and is "
         "observed through get, iter and an out-of-range get")
@@ -32,8 +32,20 @@ def one(cat, rng, stack, n):
     b.new("a")
     forms_all = [f for f in cat["forms"] if f not in cat["array_forms"] and f != "item"]
     for _ in range(n):
-        r = rng.below(12)
-        if r < 5:
+        r = rng.below(13)
+        if r == 12 and cat["caps"]["clone"] and "d" not in b.h:
+            # clone_from into a stack with an unrelated history of its own (longer or shorter, spilled or still strided):
+            # afterwards it is the sequence of the source, nothing of its former self (round 9: a clone_from of the
+            # index container that kept the destination's spilled entries was seen by C09 only)
+            b.new("d")
+            for _ in range(rng.below(7)):
+                v = b.value()
+                b.push("d", v, b.form_for(v))
+            b.raw("clone_from d a", ("eq", "ok"), shape="clone_from")
+            b.h["d"].vals = list(b.h["a"].vals)
+            b.h["d"].last_pushed = b.h["a"].last_pushed
+            observe(b, "d")
+        elif r < 5:
             v = b.value()
             b.push("a", v, b.form_for(v))
         elif r < 7:
